@@ -34,8 +34,16 @@ func main() {
 	seamList := flag.String("seams", "", "comma separated dir:Func or dir:Type.Method whose body gets a replaceable prologue (ZsimSeam_*)")
 	preemptList := flag.String("preempt", "", "comma separated package directories whose loops get a scheduling point at the end of every iteration (models pre-emption inside code without synchronisation)")
 	argList := flag.String("argseams", "", "comma separated dir:Func or dir:Type.Method whose arguments can be substituted (ZsimArgs_*)")
+	seamOnlyList := flag.String("seamonly", "", "comma separated package directories that get their seams and nothing else (no rewriting of sync, go, channels)")
 	flag.Parse()
 	seams, argSeams := parseSeams(*seamList), parseSeams(*argList)
+	seamOnly := map[string]bool{}
+	for _, d := range strings.Split(*seamOnlyList, ",") {
+		if d = strings.TrimSpace(d); d != "" {
+			seamOnly[d] = true
+			*pkgs += "," + d
+		}
+	}
 	preempt := map[string]bool{}
 	for _, d := range strings.Split(*preemptList, ",") {
 		if d = strings.TrimSpace(d); d != "" {
@@ -89,6 +97,7 @@ func main() {
 			rel, _ := filepath.Rel(*dir, filepath.Dir(name))
 			in.seams, in.argSeams = seams[rel], argSeams[rel]
 			in.preempt = preempt[rel]
+			in.seamOnly = seamOnly[rel]
 			if err := in.run(); err != nil {
 				fmt.Fprintf(os.Stderr, "instr: %s: %v\n", name, err)
 				os.Exit(2)
@@ -122,6 +131,7 @@ type instr struct {
 	file     *ast.File
 	fname    string
 	changed  bool
+	seamOnly bool
 	useZsim  bool
 	sites    int
 	ctr      int
@@ -342,6 +352,9 @@ func (in *instr) run() error {
 	in.keep = map[string]string{}
 	// imports
 	for _, is := range in.file.Imports {
+		if in.seamOnly {
+			break
+		}
 		p, _ := strconv.Unquote(is.Path.Value)
 		switch p {
 		case "sync":
@@ -359,6 +372,9 @@ func (in *instr) run() error {
 		}
 	}
 	for _, d := range in.file.Decls {
+		if in.seamOnly {
+			break
+		}
 		switch d := d.(type) {
 		case *ast.FuncDecl:
 			if d.Body != nil {
